@@ -905,3 +905,267 @@ Example no_eval_example :
   eval_const_fx [] (EBin Add (EInt 1) (EMethod (EName [120]) [121] [EBin Add (EInt 1) (EInt 1)] [])) = (CFail KValue, []) /\
   snd (eval_const_fx [] (EBin Add (EInt 1) (EInt 1))) = [PArith Add].
 Proof. vm_compute. auto. Qed.
+
+(* ------------------------------------------------------------------ *)
+(* C11: which exception kinds can leave the evaluator, and from where *)
+Definition src (k : ckind) : pexpr -> bool :=
+  match k with KZeroDiv => is_divlike | KType => is_type_source | KValue => fun _ => true end.
+
+Definition m_any (t : pexpr -> bool) := fix any (l : list pexpr) : bool :=
+  match l with [] => false | x :: r => mentions t x || any r end.
+
+Lemma mn_unfold t e : mentions t e =
+  t e || match e with
+         | EBin _ a b => mentions t a || mentions t b
+         | EUn _ a => mentions t a
+         | EBoolOp _ vs => m_any t vs
+         | ECompare l _ rs => mentions t l || m_any t rs
+         | EIfExp c a b => mentions t c || mentions t a || mentions t b
+         | EJoined ps => m_any t ps
+         | EFmt _ v => mentions t v
+         | ECall _ args _ => m_any t args
+         | EList es | ETuple es => m_any t es
+         | _ => false
+         end.
+Proof. destruct e; reflexivity. Qed.
+
+Lemma bindC_fail {A B} (r : cr A) (f : A -> cr B) k :
+  bindC r f = CFail k -> r = CFail k \/ exists a, r = CVal a /\ f a = CFail k.
+Proof. destruct r; cbn; intro H; [right; eauto|left; inversion H; reflexivity|discriminate]. Qed.
+
+Lemma num_bin_err op a b e : num_bin op a b = Err e ->
+  match e with
+  | ZeroDiv => is_divlike (EBin op EConstOther EConstOther) = true
+  | TypeErr => is_type_source (EBin op EConstOther EConstOther) = true
+  | _ => True end.
+Proof.
+  unfold num_bin, int_pow, float_pow. intro H.
+  destruct op, a, b;
+    repeat match type of H with
+           | context [if ?c then _ else _] => destruct c
+           | context [match q_integral ?q with _ => _ end] => destruct (q_integral q)
+           end; try discriminate; inversion H; subst; try reflexivity; exact I.
+Qed.
+
+Lemma py_bin_numeric_err op x y e : is_numv x = true -> is_numv y = true -> py_bin op x y = Err e ->
+  match e with
+  | ZeroDiv => is_divlike (EBin op EConstOther EConstOther) = true
+  | TypeErr => is_type_source (EBin op EConstOther EConstOther) = true
+  | _ => True end.
+Proof.
+  intros Hx Hy H.
+  assert (G : py_bin_num op x y = Err e ->
+              match e with
+              | ZeroDiv => is_divlike (EBin op EConstOther EConstOther) = true
+              | TypeErr => is_type_source (EBin op EConstOther EConstOther) = true
+              | _ => True end).
+  { unfold py_bin_num. destruct x; try discriminate; destruct y; try discriminate; cbn [as_num]; apply num_bin_err. }
+  destruct op; try (apply G; exact H);
+    destruct x; try (apply G; exact H); destruct y; try (apply G; exact H); discriminate.
+Qed.
+
+Lemma apply_bin_kind op x y k a b : apply_bin op x y = CFail k -> src k (EBin op a b) = true.
+Proof.
+  intro H.
+  assert (G : (if is_numv x && is_numv y then lift (py_bin op x y) else CFail KValue) = CFail k -> src k (EBin op a b) = true).
+  { destruct (is_numv x) eqn:Nx; [|cbn; intro E; inversion E; reflexivity].
+    destruct (is_numv y) eqn:Ny; [|cbn; intro E; inversion E; reflexivity]. cbn [andb].
+    destruct (py_bin op x y) as [v|e] eqn:E; [discriminate|].
+    pose proof (py_bin_numeric_err _ _ _ _ Nx Ny E) as P.
+    destruct e; cbn; intro F; inversion F; subst; cbn; try reflexivity; destruct op; cbn in P |- *; congruence. }
+  unfold apply_bin in H.
+  destruct op; try (apply G; exact H);
+    destruct x; try (apply G; exact H); destruct y; try (apply G; exact H); discriminate.
+Qed.
+
+Lemma py_cmp_err op a b e : py_cmp op a b = Err e -> e = TypeErr \/ e = OutOfModel.
+Proof.
+  unfold py_cmp. intro H.
+  destruct op; try (right; congruence);
+    (destruct (as_num a); [destruct (as_num b); [discriminate|]|]);
+    destruct a, b; inversion H; auto.
+Qed.
+
+Lemma lift_cmp_kind op a b k : lift (py_cmp op a b) = CFail k -> k = KType.
+Proof.
+  destruct (py_cmp op a b) as [v|e] eqn:E; [discriminate|].
+  destruct (py_cmp_err _ _ _ _ E); subst; cbn; intro H; inversion H; reflexivity.
+Qed.
+
+Lemma cmp_step_kind op l r k : cmp_step op l r = CFail k -> k = KValue \/ k = KType.
+Proof.
+  unfold cmp_step. destruct (cmp_known op); [|intro H; inversion H; auto].
+  destruct (py_cmp op l r) as [v|[]]; intro H; inversion H; auto.
+Qed.
+
+Lemma abs_step_kind v k : abs_step v = CFail k -> k = KValue.
+Proof.
+  unfold abs_step. destruct v; cbn; intro H; inversion H; reflexivity.
+Qed.
+
+Lemma cast_kind f v k : cast f v = CFail k -> k = KValue.
+Proof. unfold cast. destruct (py_call f [v]) as [r|[]]; intro H; inversion H; reflexivity. Qed.
+
+Lemma len_step_kind v k : len_step v = CFail k -> k = KValue.
+Proof. destruct v; cbn; intro H; inversion H; reflexivity. Qed.
+
+Section Kinds.
+  Variable c : cenv.
+  Definition kd_at (e : pexpr) : Prop := forall k, eval_const c e = CFail k -> mentions (src k) e = true.
+
+  Lemma src_value e : mentions (src KValue) e = true.
+  Proof. rewrite mn_unfold. reflexivity. Qed.
+
+  Lemma kd_evals l : Forall kd_at l -> forall k, k <> KValue -> c_evals c l = CFail k -> m_any (src k) l = true.
+  Proof.
+    induction 1 as [|x r Hx Hr IH]; cbn [c_evals m_any]; intros k Hk H; [discriminate|].
+    apply bindC_fail in H as [H|(v & _ & H)]; [rewrite (Hx k H); reflexivity|].
+    apply bindC_fail in H as [H|(vs & _ & H)]; [|discriminate]. rewrite (IH k Hk H). apply orb_true_r.
+  Qed.
+  Lemma kd_evand l : Forall kd_at l -> forall k r0, c_evand c l r0 = CFail k -> m_any (src k) l = true.
+  Proof.
+    induction 1 as [|x r Hx Hr IH]; cbn [c_evand m_any]; intros k r0 H; [discriminate|].
+    destruct (truthy r0); [|rewrite (IH _ _ H); apply orb_true_r].
+    apply bindC_fail in H as [H|(v & _ & H)]; [rewrite (Hx k H); reflexivity|]. rewrite (IH _ _ H). apply orb_true_r.
+  Qed.
+  Lemma kd_evor l : Forall kd_at l -> forall k r0, c_evor c l r0 = CFail k -> m_any (src k) l = true.
+  Proof.
+    induction 1 as [|x r Hx Hr IH]; cbn [c_evor m_any]; intros k r0 H; [discriminate|].
+    destruct (truthy r0); [rewrite (IH _ _ H); apply orb_true_r|].
+    apply bindC_fail in H as [H|(v & _ & H)]; [rewrite (Hx k H); reflexivity|]. rewrite (IH _ _ H). apply orb_true_r.
+  Qed.
+  (* a failing comparison chain: either below a comparator, or the comparison itself (then the kind is
+     ValueError or TypeError, and a Compare node is a TypeError source) *)
+  Lemma kd_chain rs : Forall kd_at rs -> forall k left ops, c_chain c left ops rs = CFail k ->
+    m_any (src k) rs = true \/ k = KValue \/ k = KType.
+  Proof.
+    induction 1 as [|x r Hx Hr IH]; cbn [c_chain m_any]; intros k left ops H; [discriminate|].
+    destruct ops as [|op ops]; [discriminate|].
+    apply bindC_fail in H as [H|(rv & _ & H)]; [left; rewrite (Hx k H); reflexivity|].
+    apply bindC_fail in H as [H|(b & _ & H)]; [right; apply (cmp_step_kind _ _ _ _ H)|].
+    destruct b; [|discriminate]. destruct (IH _ _ _ H) as [I|I]; [left; rewrite I; apply orb_true_r|right; exact I].
+  Qed.
+  Lemma kd_joined ps : Forall (fmt_inner kd_at) ps -> forall k, c_joined c ps = CFail k -> k = KValue \/ m_any (src k) ps = true.
+  Proof.
+    induction 1 as [|p r Hp Hr IH]; cbn [c_joined m_any]; intros k H; [discriminate|].
+    apply bindC_fail in H as [H|(s & _ & H)].
+    - destruct p; cbn in H; try (inversion H; auto).
+      destruct ok; [|inversion H; auto].
+      apply bindC_fail in H as [H|(x & _ & H)]; [|unfold str_step in H; destruct (py_str x); discriminate].
+      right. cbn in Hp. rewrite mn_unfold, (Hp k H). rewrite orb_true_r. reflexivity.
+    - apply bindC_fail in H as [H|(t & _ & H)]; [|discriminate].
+      destruct (IH k H) as [I|I]; [auto|right; rewrite I; apply orb_true_r].
+  Qed.
+  Lemma kd_mm r : Forall kd_at r -> forall k w best, c_mm c w best r = CFail k -> m_any (src k) r = true \/ k = KType.
+  Proof.
+    induction 1 as [|x r Hx Hr IH]; cbn [c_mm m_any]; intros k w best H; [discriminate|].
+    apply bindC_fail in H as [H|(v & _ & H)]; [left; rewrite (Hx k H); reflexivity|].
+    apply bindC_fail in H as [H|(b & _ & H)]; [right; apply (lift_cmp_kind _ _ _ _ H)|].
+    destruct (IH _ _ _ H) as [I|I]; [left; rewrite I; apply orb_true_r|right; exact I].
+  Qed.
+
+  Lemma un_step_kind op x k : un_step op x = CFail k -> k = KValue \/ (k = KType /\ op = USub).
+  Proof.
+    destruct op; cbn; intro Hf; try discriminate; [|inversion Hf; auto].
+    unfold py_un in Hf. destruct (as_num x) as [[|]|]; inversion Hf. auto.
+  Qed.
+
+  Lemma kinds_at : forall e, kd_at e.
+  Proof.
+    assert (K : forall e, (forall k, k <> KValue -> eval_const c e = CFail k -> mentions (src k) e = true) -> kd_at e).
+    { intros e Hx k Hf. destruct k; [apply src_value| |]; apply Hx; auto; discriminate. }
+    induction e using pexpr_ind2; apply K; intros k Hk Hf; try discriminate; try (inversion Hf; congruence);
+      rewrite mn_unfold.
+    - (* EName *) cbn in Hf. destruct (tlookup x c) as [[w|]|]; [destruct (is_scalar w)| |]; inversion Hf; congruence.
+    - (* EBin *) rewrite ec_bin in Hf. destruct (in_bin op); [|inversion Hf; congruence].
+      apply bindC_fail in Hf as [Hf|(x & _ & Hf)]; [rewrite (IHe1 _ Hf); cbn; rewrite orb_true_r; reflexivity|].
+      apply bindC_fail in Hf as [Hf|(y & _ & Hf)]; [rewrite (IHe2 _ Hf); cbn; rewrite !orb_true_r; reflexivity|].
+      rewrite (apply_bin_kind _ _ _ _ e1 e2 Hf). reflexivity.
+    - (* EUn *) rewrite ec_un in Hf. destruct (in_un op); [|inversion Hf; congruence].
+      apply bindC_fail in Hf as [Hf|(x & _ & Hf)]; [rewrite (IHe _ Hf); apply orb_true_r|].
+      destruct (un_step_kind _ _ _ Hf) as [E|[E1 E2]]; [congruence|subst; reflexivity].
+    - (* EBoolOp *) destruct op; [rewrite ec_and in Hf; rewrite (kd_evand _ H _ _ Hf)|rewrite ec_or in Hf; rewrite (kd_evor _ H _ _ Hf)]; apply orb_true_r.
+    - (* ECompare *) rewrite ec_cmp in Hf. destruct ops; [inversion Hf; congruence|].
+      apply bindC_fail in Hf as [Hf|(lv & _ & Hf)]; [rewrite (IHe _ Hf); cbn; rewrite orb_true_r; reflexivity|].
+      destruct (kd_chain _ H _ _ _ Hf) as [E|[E|E]]; [rewrite E; rewrite !orb_true_r; reflexivity|congruence|subst; reflexivity].
+    - (* EIfExp *) rewrite ec_if in Hf.
+      apply bindC_fail in Hf as [Hf|(cv & _ & Hf)]; [rewrite (IHe1 _ Hf); cbn; rewrite orb_true_r; reflexivity|].
+      destruct (truthy cv); [rewrite (IHe2 _ Hf)|rewrite (IHe3 _ Hf)]; rewrite !orb_true_r; reflexivity.
+    - (* EJoined *) rewrite ec_joined in Hf. apply bindC_fail in Hf as [Hf|(s & _ & Hf)]; [|discriminate].
+      destruct (kd_joined _ H0 _ Hf) as [E|E]; [congruence|rewrite E; apply orb_true_r].
+    - (* ECall *) rewrite ec_call in Hf. destruct kws; [|destruct args; inversion Hf; congruence].
+      destruct args as [|a r]; [inversion Hf; congruence|].
+      inversion H as [|? ? Pa Pr]; subst. cbn [m_any].
+      destruct (is_nil r && tmem f safe_casts).
+      { apply bindC_fail in Hf as [Hf|(v & _ & Hf)]; [rewrite (Pa _ Hf); rewrite !orb_true_r; reflexivity|]. apply cast_kind in Hf. congruence. }
+      destruct (is_nil r && text_eqb f n_len).
+      { apply bindC_fail in Hf as [Hf|(v & _ & Hf)]; [rewrite (Pa _ Hf); rewrite !orb_true_r; reflexivity|]. apply len_step_kind in Hf. congruence. }
+      destruct (is_nil r && text_eqb f n_abs).
+      { apply bindC_fail in Hf as [Hf|(v & _ & Hf)]; [rewrite (Pa _ Hf); rewrite !orb_true_r; reflexivity|]. apply abs_step_kind in Hf. congruence. }
+      destruct (text_eqb f n_max) eqn:T4.
+      { apply bindC_fail in Hf as [Hf|(v & _ & Hf)]; [rewrite (Pa _ Hf); rewrite !orb_true_r; reflexivity|].
+        destruct (kd_mm _ Pr _ _ _ Hf) as [E|E]; [rewrite E; rewrite !orb_true_r; reflexivity|].
+        subst k. cbn [src is_type_source]. unfold is_minmax. rewrite T4. reflexivity. }
+      destruct (text_eqb f n_min) eqn:T5; [|inversion Hf; congruence].
+      { apply bindC_fail in Hf as [Hf|(v & _ & Hf)]; [rewrite (Pa _ Hf); rewrite !orb_true_r; reflexivity|].
+        destruct (kd_mm _ Pr _ _ _ Hf) as [E|E]; [rewrite E; rewrite !orb_true_r; reflexivity|].
+        subst k. cbn [src is_type_source]. unfold is_minmax. rewrite T5. rewrite orb_true_r. reflexivity. }
+    - (* EList *) rewrite ec_list in Hf. apply bindC_fail in Hf as [Hf|(vs & _ & Hf)]; [|discriminate].
+      rewrite (kd_evals _ H _ Hk Hf). apply orb_true_r.
+    - (* ETuple *) rewrite ec_tuple in Hf. apply bindC_fail in Hf as [Hf|(vs & _ & Hf)]; [|discriminate].
+      rewrite (kd_evals _ H _ Hk Hf). apply orb_true_r.
+  Qed.
+End Kinds.
+
+Theorem error_kinds : forall c e k, eval_const c e = CFail k -> mentions (src k) e = true.
+Proof. intros c e k. apply kinds_at. Qed.
+
+(* the call sites: whatever the evaluator raises is caught ("except Exception") or turned into ValueError *)
+Theorem call_sites_clean : forall c e,
+  (forall k, resolve_numeric c e <> Raises k) /\
+  (forall k, resolve_float c e <> Raises k) /\
+  (forall k, resolve_bool c e <> Raises k) /\
+  (forall k, assign_binding c e <> Raises k) /\
+  (forall k, glyph_bitmap c e = Raises k -> k = KValue).
+Proof.
+  intros c e. repeat split; intro k.
+  - unfold resolve_numeric, catch_all. destruct (has_name e); [discriminate|].
+    destruct (eval_const c e) as [v|k'|]; try discriminate. destruct v; discriminate.
+  - unfold resolve_float, catch_all. destruct (has_name e); [discriminate|].
+    destruct (eval_const c e) as [v|k'|]; try discriminate. destruct v; discriminate.
+  - unfold resolve_bool, catch_all. destruct (has_name e); [discriminate|].
+    destruct (eval_const c e) as [v|k'|]; try discriminate. destruct v; discriminate.
+  - unfold assign_binding. destruct (eval_const c e); discriminate.
+  - unfold glyph_bitmap. destruct (eval_const c e) as [v|k'|]; try discriminate; [|intro H; inversion H; reflexivity].
+    destruct v; try (intro H; inversion H; reflexivity);
+      (destruct (glyph_rows l) as [zs|]; [destruct (Nat.eqb (length zs) 8)|]; intro H; inversion H; reflexivity).
+Qed.
+
+Example error_kinds_nonvacuous :
+  eval_const [] (EBin Div (EInt 1) (EInt 0)) = CFail KZeroDiv /\
+  eval_const [] (EUn USub (EStr [97])) = CFail KType /\
+  eval_const [] (EBin LShift (EInt 1) (EInt (-1))) = CFail KValue /\
+  resolve_numeric [] (EBin Div (EInt 1) (EInt 0)) = Fallback /\
+  glyph_bitmap [] (EBin Div (EInt 1) (EInt 0)) = Raises KValue.
+Proof. vm_compute. auto 6. Qed.
+
+(* ------------------------------------------------------------------ *)
+(* C11: the work of the evaluator is not bounded by a polynomial in the size of its input *)
+Lemma in_bin_pow : in_bin Pow = true.
+Proof. reflexivity. Qed.
+
+Theorem blowup : forall n, 0 <= n ->
+  exists z, eval_const [] (tower n) = CVal (VInt z) /\ bits (VInt z) = 2 ^ n + 1.
+Proof.
+  intros n Hn. exists (2 ^ (2 ^ n)). split.
+  - unfold tower. rewrite !ec_bin, in_bin_pow.
+    change (eval_const [] (EInt 2)) with (@CVal pval (VInt 2)).
+    change (eval_const [] (EInt n)) with (@CVal pval (VInt n)).
+    cbn [bindC].
+    assert (E : forall a b, 0 <= b -> apply_bin Pow (VInt a) (VInt b) = CVal (VInt (a ^ b))).
+    { intros a b Hb. unfold apply_bin, py_bin, py_bin_num, num_bin, int_pow. cbn [is_numv andb as_num].
+      apply Z.leb_le in Hb. rewrite Hb. reflexivity. }
+    rewrite (E 2 n Hn). cbn [bindC]. apply E. apply Z.pow_nonneg. lia.
+  - unfold bits. rewrite Z.abs_eq by (apply Z.pow_nonneg; lia).
+    rewrite Z.log2_pow2 by (apply Z.pow_nonneg; lia). reflexivity.
+Qed.
